@@ -24,6 +24,7 @@ import (
 	"time"
 
 	"github.com/go-logr/logr"
+	kerrors "k8s.io/apimachinery/pkg/api/errors"
 	metav1 "k8s.io/apimachinery/pkg/apis/meta/v1"
 	"k8s.io/apimachinery/pkg/apis/meta/v1/unstructured"
 	"k8s.io/apimachinery/pkg/runtime"
@@ -115,8 +116,9 @@ type proc struct {
 	res     opResult
 	info    map[string]any
 	pending string // a message already taken from at by an atomicity probe
-	hold2   bool   // atomicity probe: also pause at the second snapshot of this StartWatches
-	early   bool   // already released from its first gate by an atomicity probe
+	holdAt  int    // atomicity probe: pause at the holdAt-th internal point of the segment about to run (-1: nowhere)
+	holdN   int    // internal points passed since the last release
+	early   bool   // already started / released by an atomicity probe
 }
 
 // goid is the id of the calling goroutine (the fakes are called on the goroutine of the operation).
@@ -164,6 +166,28 @@ func (w *world) gate(point string) {
 	<-rel
 }
 
+// hold marks an internal point of an operation: a call the engine makes on its informers, cache or controller
+// while it holds the locks of a segment that the model treats as atomic.  An atomicity probe (see replay) pauses
+// the operation at one of them for a moment to see whether another operation can run meanwhile.
+func (w *world) hold(point string) {
+	if !w.gated {
+		return
+	}
+	w.mu.Lock()
+	p := w.byG[goid()] // only the goroutine of the operation itself
+	fire := false
+	if p != nil && p.holdAt >= 0 {
+		if p.holdN == p.holdAt {
+			fire, p.holdAt = true, -1
+		}
+		p.holdN++
+	}
+	w.mu.Unlock()
+	if fire {
+		w.gate("hold:" + point)
+	}
+}
+
 // ---- fake informers (the cache under the real InformerTrackingCache)
 
 type registration struct {
@@ -181,9 +205,11 @@ type fakeInformer struct {
 	gvk  schema.GroupVersionKind
 	regs map[int]*registration
 	next int
+	gone bool // removed from the cache: stopped
 }
 
 func (i *fakeInformer) AddEventHandler(h kcache.ResourceEventHandler) (kcache.ResourceEventHandlerRegistration, error) {
+	i.w.hold("add-handler")
 	i.w.mu.Lock()
 	i.next++
 	r := &registration{id: i.next, inf: i, h: h}
@@ -208,6 +234,7 @@ func (i *fakeInformer) AddEventHandlerWithResyncPeriod(h kcache.ResourceEventHan
 }
 
 func (i *fakeInformer) RemoveEventHandler(reg kcache.ResourceEventHandlerRegistration) error {
+	i.w.hold("remove-handler")
 	i.w.mu.Lock()
 	defer i.w.mu.Unlock()
 	if i.w.failRemove {
@@ -221,7 +248,11 @@ func (i *fakeInformer) RemoveEventHandler(reg kcache.ResourceEventHandlerRegistr
 }
 func (i *fakeInformer) AddIndexers(kcache.Indexers) error { return nil }
 func (i *fakeInformer) HasSynced() bool                   { return true }
-func (i *fakeInformer) IsStopped() bool                   { return false }
+func (i *fakeInformer) IsStopped() bool {
+	i.w.mu.Lock()
+	defer i.w.mu.Unlock()
+	return i.gone
+}
 
 type fakeCache struct {
 	cache.Cache // nil: only the Informers part is used
@@ -233,6 +264,7 @@ func (c *fakeCache) GetInformer(_ context.Context, obj client.Object, _ ...cache
 }
 
 func (c *fakeCache) GetInformerForKind(_ context.Context, gvk schema.GroupVersionKind, _ ...cache.InformerGetOption) (cache.Informer, error) {
+	c.w.hold("get-informer")
 	c.w.mu.Lock()
 	defer c.w.mu.Unlock()
 	i, ok := c.w.informers[gvk]
@@ -244,10 +276,35 @@ func (c *fakeCache) GetInformerForKind(_ context.Context, gvk schema.GroupVersio
 }
 
 func (c *fakeCache) RemoveInformer(_ context.Context, obj client.Object) error {
+	c.w.hold("remove-informer")
 	c.w.mu.Lock()
 	defer c.w.mu.Unlock()
+	if i, ok := c.w.informers[obj.GetObjectKind().GroupVersionKind()]; ok {
+		i.gone = true
+	}
+	// a start request in flight is not the "next start request" after this loss
+	for _, p := range c.w.procs {
+		if l, ok := p.info["lost"].([]string); ok {
+			kept := []string{}
+			for _, wid := range l {
+				if gvkOf(wid) != obj.GetObjectKind().GroupVersionKind() {
+					kept = append(kept, wid)
+				}
+			}
+			p.info["lost"] = kept
+		}
+	}
 	delete(c.w.informers, obj.GetObjectKind().GroupVersionKind())
 	return nil
+}
+
+// Get: a cached read starts the informer of the kind (as the real cache does) and finds nothing.
+func (c *fakeCache) Get(ctx context.Context, key client.ObjectKey, obj client.Object, _ ...client.GetOption) error {
+	gvk := obj.GetObjectKind().GroupVersionKind()
+	if _, err := c.GetInformerForKind(ctx, gvk); err != nil {
+		return err
+	}
+	return kerrors.NewNotFound(schema.GroupResource{Group: gvk.Group, Resource: gvk.Kind}, key.Name)
 }
 
 func (c *fakeCache) IndexField(context.Context, client.Object, string, client.IndexerFunc) error {
@@ -276,23 +333,19 @@ func (g *gatedInfs) ActiveInformers() []schema.GroupVersionKind {
 	// StartWatches takes a second one under the controller's lock; pausing there would block everybody.)
 	// An atomicity probe (see replay) also pauses a caller at its second snapshot - for a moment only, to see
 	// whether another caller can get there as well.
-	first, second := false, false
+	first := false
 	g.w.mu.Lock()
 	if p := g.w.me(); p != nil && g.w.gated {
 		if _, seen := p.info["snapshot"]; !seen {
 			p.info["snapshot"] = snap
 			first = true
-		} else if p.hold2 {
-			p.hold2 = false
-			second = true
 		}
 	}
 	g.w.mu.Unlock()
 	if first {
 		g.w.gate("snapshot")
-	}
-	if second {
-		g.w.gate("snapshot2")
+	} else {
+		g.w.hold("snapshot2")
 	}
 	return a
 }
@@ -479,6 +532,16 @@ type step struct {
 	D   []string `json:"d"`
 }
 
+// idNumber is the trailing number of a scenario id (0 if none).
+func idNumber(id string) int {
+	i := len(id)
+	for i > 0 && id[i-1] >= '0' && id[i-1] <= '9' {
+		i--
+	}
+	n, _ := strconv.Atoi(id[i:])
+	return n
+}
+
 func errStr(err error) string {
 	if err != nil {
 		return "err"
@@ -557,6 +620,10 @@ func (w *world) exec(s step) opResult {
 	case "RemoveInformer":
 		err := w.infs.RemoveInformer(ctx, objOf(s.A[0]))
 		return opResult{r: errStr(err), a: s.A}
+	case "CachedRead":
+		// a reconciler reads an object of the kind through the tracking cache
+		_ = w.infs.Get(ctx, client.ObjectKey{Name: "x"}, objOf(s.A[0]))
+		return opResult{r: "ok", a: s.A}
 	case "ChangeRefs":
 		w.mu.Lock()
 		w.refs = append([]string(nil), s.A...)
@@ -570,6 +637,7 @@ func (w *world) exec(s step) opResult {
 
 // post projects the observable state of the engine's world.
 func (w *world) post() map[string]any {
+	activeNow := w.infs.InformerTrackingCache.ActiveInformers() // (takes the tracking cache's lock: not under w.mu)
 	w.mu.Lock()
 	defer w.mu.Unlock()
 	regs := []any{}
@@ -608,7 +676,7 @@ func (w *world) post() map[string]any {
 		}
 	}
 	act := []any{}
-	for _, gvk := range w.infs.InformerTrackingCache.ActiveInformers() {
+	for _, gvk := range activeNow {
 		for _, wid := range []string{"xr", "rev", "cdA", "cdB", "cdC"} {
 			if gvkOf(wid) == gvk {
 				act = append(act, wid)
@@ -620,7 +688,13 @@ func (w *world) post() map[string]any {
 	for _, r := range w.refs {
 		refs = append(refs, r)
 	}
-	return map[string]any{"regs": regs, "running": running, "cancelled": canc, "stopped": stop, "active": act, "refs": refs, "ninst": len(w.insts)}
+	infs := []any{}
+	for _, wid := range []string{"cdA", "cdB", "cdC", "rev", "xr"} {
+		if _, ok := w.informers[gvkOf(wid)]; ok {
+			infs = append(infs, wid)
+		}
+	}
+	return map[string]any{"regs": regs, "running": running, "cancelled": canc, "stopped": stop, "active": act, "informers": infs, "refs": refs, "ninst": len(w.insts)}
 }
 
 func strs(ss []string) []any {
@@ -654,7 +728,7 @@ type summary struct {
 }
 
 // replay runs one TLC schedule deterministically.
-func replay(tw *trace.Writer, id string, hist []step, sum *summary) {
+func replay(tw *trace.Writer, id string, hist []step, sum *summary, probeBase int) {
 	tw.Boundary()
 	w := newWorld(true)
 	if len(hist) > 0 && hist[0].Op == "init" {
@@ -677,7 +751,7 @@ func replay(tw *trace.Writer, id string, hist []step, sum *summary) {
 			inst = v
 		}
 		tw.Emit(map[string]any{"ev": ev, "scenario": id, "p": s.P, "op": s.Op, "seg": s.Seg, "c": s.C, "a": strs(s.A), "fin": fin,
-			"r": res.r, "ra": strs(res.a), "snapshot": infoStrs(info, "snapshot"), "used": infoStrs(info, "used"), "gcstop": infoStrs(info, "gcstop"),
+			"r": res.r, "ra": strs(res.a), "snapshot": infoStrs(info, "snapshot"), "lost": infoStrs(info, "lost"), "overlapped": info["overlapped"] == true, "used": infoStrs(info, "used"), "gcstop": infoStrs(info, "gcstop"),
 			"inst": inst, "post": w.post()})
 	}
 	emit("reset", step{Op: "reset"}, nil, false)
@@ -695,12 +769,79 @@ func replay(tw *trace.Writer, id string, hist []step, sum *summary) {
 			return "", false
 		}
 	}
-	release := func(p *proc) {
+	releaseAt := func(p *proc, holdAt int) {
 		w.mu.Lock()
 		old := p.release
 		p.release = make(chan struct{})
+		p.holdN, p.holdAt = 0, holdAt
 		w.mu.Unlock()
 		close(old)
+	}
+	release := func(p *proc) { releaseAt(p, -1) }
+	startOp := func(s step, holdAt int) *proc {
+		p := &proc{id: s.P, release: make(chan struct{}), at: make(chan string, 1), info: map[string]any{}, holdAt: holdAt}
+		w.mu.Lock()
+		p.info["inst"] = w.running[s.C]
+		if s.Op == "StartWatches" {
+			// the requested watches that have no live event handler as the request begins
+			lost := []string{}
+			for _, wid := range s.A {
+				live := false
+				if inf := w.informers[gvkOf(wid)]; inf != nil {
+					for _, r := range inf.regs {
+						if r.inst == w.running[s.C] && r.inst != 0 && r.wid == wid {
+							live = true
+						}
+					}
+				}
+				if !live {
+					lost = append(lost, wid)
+				}
+			}
+			sort.Strings(lost)
+			p.info["lost"] = lost
+		}
+		w.procs[s.P] = p
+		w.mu.Unlock()
+		go func() {
+			g := goid()
+			w.mu.Lock()
+			w.byG[g] = p
+			w.mu.Unlock()
+			p.res = w.exec(s)
+			w.mu.Lock()
+			delete(w.byG, g)
+			w.mu.Unlock()
+			p.at <- "done"
+		}()
+		return p
+	}
+	// Atomicity probes.  The model makes every lock-protected segment of the engine one atomic action.  To test that
+	// the code still protects them, a step may be paused at one of its internal points (a call into the informers /
+	// cache made inside the segment, see world.hold) while the operation that the schedule runs NEXT - of another
+	// caller, and one that changes something - is started / released early.  While the segment is lock-protected
+	// the other operation blocks as soon as it needs the lock: the probe times out and the schedule goes on exactly
+	// as the model says (the early operation simply completes when its turn comes).  If it can run meanwhile, the
+	// two now really overlap and the monitor judges the outcome.  A probe can lose an interleaving (timeout), it
+	// cannot raise an alarm on its own.  Probed: every pair of StartWatches second segments of one controller, and
+	// every step of one schedule in eight (scenario number; the schedule is run three more times, the internal point
+	// rotating with probeBase).
+	mutator := map[string]bool{"Start": true, "Stop": true, "StartWatches": true, "StopWatches": true, "GC": true, "RemoveInformer": true}
+	probeAt := func(idx int, s step) int {
+		if idx+1 >= len(hist) {
+			return -1
+		}
+		n := hist[idx+1]
+		if n.P == s.P || !mutator[n.Op] {
+			return -1
+		}
+		if s.Op == "StartWatches" && s.Seg == 2 && n.Op == "StartWatches" && n.Seg == 2 && n.C == s.C {
+			return 0 // the second snapshot
+		}
+		if probeBase >= 0 {
+			return (probeBase + idx) % 3
+		}
+		return -1
 	}
 	for idx, s := range hist {
 		sum.Steps++
@@ -708,31 +849,20 @@ func replay(tw *trace.Writer, id string, hist []step, sum *summary) {
 		p := w.procs[s.P]
 		w.cur = s.P
 		w.mu.Unlock()
-		var probeQ *proc
+		holdAt := probeAt(idx, s)
 		if s.Seg == 1 {
-			if p != nil {
-				drift++ // the model thinks this caller is idle but its previous operation is still paused: finish it first
-				release(p)
-				for at, ok := wait(p); ok && at != "done"; at, ok = wait(p) {
+			if p != nil && p.early {
+				p.early = false // an atomicity probe started it already
+			} else {
+				if p != nil {
+					drift++ // the model thinks this caller is idle but its previous operation is still paused: finish it first
 					release(p)
+					for at, ok := wait(p); ok && at != "done"; at, ok = wait(p) {
+						release(p)
+					}
 				}
+				p = startOp(s, holdAt)
 			}
-			p = &proc{id: s.P, release: make(chan struct{}), at: make(chan string, 1), info: map[string]any{}}
-			w.mu.Lock()
-			p.info["inst"] = w.running[s.C]
-			w.procs[s.P] = p
-			w.mu.Unlock()
-			go func(s step, p *proc) {
-				g := goid()
-				w.mu.Lock()
-				w.byG[g] = p
-				w.mu.Unlock()
-				p.res = w.exec(s)
-				w.mu.Lock()
-				delete(w.byG, g)
-				w.mu.Unlock()
-				p.at <- "done"
-			}(s, p)
 		} else {
 			if p == nil {
 				drift++ // the real operation already finished
@@ -741,52 +871,47 @@ func replay(tw *trace.Writer, id string, hist []step, sum *summary) {
 			if p.early {
 				p.early = false // an atomicity probe released it already
 			} else {
-				// Atomicity probe.  The model says the second segment of StartWatches (re-read the active informers,
-				// start what is missing) is atomic: it runs under the controller's lock.  When the schedule continues
-				// with the second segment of another StartWatches of the same controller, this caller is held for a
-				// moment at its second snapshot to see whether the other one can get there as well.  It cannot while
-				// the segment is lock-protected (it blocks: the probe times out and the schedule goes on as the model
-				// says); if it can, both now act on their snapshots and the monitor judges the outcome.
-				if s.Op == "StartWatches" && idx+1 < len(hist) {
-					if n := hist[idx+1]; n.Op == "StartWatches" && n.Seg == 2 && n.C == s.C && n.P != s.P {
-						w.mu.Lock()
-						if q := w.procs[n.P]; q != nil && !q.early {
-							probeQ = q
-							p.hold2 = true
-						}
-						w.mu.Unlock()
-					}
-				}
-				release(p)
+				releaseAt(p, holdAt)
 			}
 		}
 		at, ok := wait(p)
+		var q *proc
 		blocked := false
-		if ok && at == "gate:snapshot2" {
-			if probeQ != nil {
+		if ok && strings.HasPrefix(at, "gate:hold:") {
+			n := hist[idx+1]
+			w.mu.Lock()
+			q = w.procs[n.P]
+			w.mu.Unlock()
+			switch {
+			case n.Seg == 1 && q == nil:
+				q = startOp(n, -1)
+			case n.Seg != 1 && q != nil && !q.early:
+				release(q)
+			default:
+				q = nil // the schedule and the real operations are out of step here: no probe
+			}
+			if q != nil {
 				sum.Probes++
-				w.mu.Lock()
-				probeQ.hold2, probeQ.early = true, true
-				w.mu.Unlock()
-				release(probeQ)
+				q.early = true
+				// Whether the two really overlapped cannot be told from the timeout (a slow start looks like a blocked
+				// one), so both steps are marked: formulas that read a step's own post-state as "the state this step
+				// produced" skip them; every state invariant is still judged.
+				p.info["overlapped"], q.info["overlapped"] = true, true
 				select {
-				case atq := <-probeQ.at:
-					probeQ.pending = atq
-					sum.ProbesEntered++ // two callers inside the segment
+				case atq := <-q.at:
+					q.pending = atq
+					sum.ProbesEntered++ // the other operation ran while this one was inside its segment
 				case <-time.After(30 * time.Millisecond):
 					blocked = true
 				}
-				w.mu.Lock()
-				probeQ.hold2 = false
-				w.mu.Unlock()
 			}
 			release(p)
 			at, ok = wait(p)
 		}
 		if ok && blocked {
-			// the other caller was waiting for the lock and runs now: let it come to rest before the state is recorded
-			if atq, okq := wait(probeQ); okq {
-				probeQ.pending = atq
+			// the other operation was waiting for a lock and runs now: let it come to rest before the state is recorded
+			if atq, okq := wait(q); okq {
+				q.pending = atq
 			}
 		}
 		if !ok {
@@ -937,7 +1062,12 @@ func main() {
 			if len(sum.Samples) < 2 {
 				sum.Samples = append(sum.Samples, json.RawMessage(raw))
 			}
-			replay(tw, sc.ID, sc.Hist, sum)
+			replay(tw, sc.ID, sc.Hist, sum, -1)
+			if idNumber(sc.ID)%8 == 0 {
+				for b := 0; b < 3; b++ {
+					replay(tw, fmt.Sprintf("%s/p%d", sc.ID, b), sc.Hist, sum, b)
+				}
+			}
 			if sum.Hung >= 3 {
 				fmt.Fprintln(os.Stderr, "giving up after 3 hung schedules")
 				break
